@@ -1,6 +1,10 @@
 (* C01 - Mech: the two arithmetic paths of the implementation.
-   [eval_i64]: ExpressionHelpers::evaluate_arithmetic_binary / evaluate_bitwise_binary
-     (helpers.cpp) - C++ int64_t arithmetic: two's-complement wrap-around, truncating / and %.
+   [eval_i64]: ExpressionHelpers::evaluate_arithmetic_binary / evaluate_bitwise_binary / evaluate_comparison_binary
+     (helpers.cpp) - int64_t arithmetic as the code computes it since fixes 7af444c / 4ed6b21 / 57fff8e: + - * wrap
+     around (computed in uint64_t), truncating / and %, INT64_MIN / -1 is reported, x % -1 = 0, shift counts are taken
+     modulo 64, << shifts the unsigned representation, >> is arithmetic.  This closed form is no longer a hand-written
+     model only: C01/HelpersGen.v proves that the definitions GENERATED from the C++ text by translators/cxx_pure.py
+     (C01/Gen_Helpers.v, semantics Cxx/Cxx.v) compute exactly [eval_i64] (theorem generated_helpers_are_eval_i64).
    [eval_ld] : BinaryUnaryTypedHelpers::evaluate_binary_op_typed (binary_unary.cpp) - operands
      converted to x87 long double (64-bit significand), + - * computed there (one rounding to
      nearest-even), result cast back to int64_t (an out-of-range cast yields INT64_MIN on x86);
@@ -10,18 +14,20 @@ From Coq Require Import ZArith Bool Lia.
 From Cb Require Import Lang.Syntax Lang.Sem.
 Local Open Scope Z_scope.
 
-Inductive mres := MVal (z : Z) | MDiv0 | MUB.      (* MUB: undefined behaviour in the C++ *)
+Inductive mres := MVal (z : Z) | MDiv0 | MOvf | MUB.
+(* MDiv0: "Division by zero" / "Modulo by zero" is reported; MOvf: "Arithmetic overflow in division" is reported;
+   MUB: undefined behaviour in the C++ (neither path produces it any more) *)
 
 Definition wrap64 (z : Z) : Z := (z + 2 ^ 63) mod 2 ^ 64 - 2 ^ 63.
 
 Definition eval_i64 (o : binop) (a b : Z) : mres :=
   match o with
   | Add => MVal (wrap64 (a + b)) | Sub => MVal (wrap64 (a - b)) | Mul => MVal (wrap64 (a * b))
-  | Div => if b =? 0 then MDiv0 else if (a =? int64_min) && (b =? -1) then MUB else MVal (Z.quot a b)
-  | Mod => if b =? 0 then MDiv0 else if (a =? int64_min) && (b =? -1) then MUB else MVal (Z.rem a b)
+  | Div => if b =? 0 then MDiv0 else if (a =? int64_min) && (b =? -1) then MOvf else MVal (Z.quot a b)
+  | Mod => if b =? 0 then MDiv0 else if b =? -1 then MVal 0 else MVal (Z.rem a b)
   | BAnd => MVal (Z.land a b) | BOr => MVal (Z.lor a b) | BXor => MVal (Z.lxor a b)
-  | Shl => if (0 <=? b) && (b <? 64) then MVal (wrap64 (a * 2 ^ b)) else MUB
-  | Shr => if (0 <=? b) && (b <? 64) then MVal (Z.shiftr a b) else MUB
+  | Shl => MVal (wrap64 (a * 2 ^ (b mod 64)))
+  | Shr => MVal (Z.shiftr a (b mod 64))
   | Lt => MVal (b2z (a <? b)) | Le => MVal (b2z (a <=? b)) | Gt => MVal (b2z (b <? a)) | Ge => MVal (b2z (b <=? a))
   | Eq => MVal (b2z (a =? b)) | Ne => MVal (b2z (negb (a =? b)))
   end.
@@ -72,10 +78,14 @@ Proof.
     destruct ((a =? int64_min) && (b =? -1)) eqn:E; [|split; reflexivity].
     apply andb_true_iff in E as [E1 E2]. apply Z.eqb_eq in E1, E2. subst. vm_compute in Hin. discriminate.
   - (* Mod *) destruct (b =? 0); [discriminate|]. destruct ((a =? int64_min) && (b =? -1)); [discriminate|].
-    injection H as <-. split; reflexivity.
-  - (* Shl *) destruct ((0 <=? b) && (b <? 64)); [|discriminate].
+    injection H as <-. destruct (b =? -1) eqn:E; [|split; reflexivity].
+    apply Z.eqb_eq in E. subst b. change (-1) with (- (1)). rewrite Z.rem_opp_r, Z.rem_1_r by discriminate. split; reflexivity.
+  - (* Shl *) destruct ((0 <=? b) && (b <? 64)) eqn:E; [|discriminate].
+    apply andb_true_iff in E as [E1 E2]. apply Z.leb_le in E1. apply Z.ltb_lt in E2. rewrite Z.mod_small by lia.
     apply chk_val in H as [Hin ->]. rewrite wrap64_id by assumption. split; reflexivity.
-  - (* Shr *) destruct ((0 <=? b) && (b <? 64)); [|discriminate]. injection H as <-. split; reflexivity.
+  - (* Shr *) destruct ((0 <=? b) && (b <? 64)) eqn:E; [|discriminate].
+    apply andb_true_iff in E as [E1 E2]. apply Z.leb_le in E1. apply Z.ltb_lt in E2. rewrite Z.mod_small by lia.
+    injection H as <-. split; reflexivity.
 Qed.
 
 Lemma div0_paths_agree_l o a b : arith o a b = Fail EDiv0 -> eval_i64 o a b = MDiv0 /\ eval_ld o a b = MDiv0.
